@@ -1,5 +1,5 @@
 (* C03 — object lifetimes: alive from creation to delete_id, never resurrected. *)
-From WD Require Import Base Wire Protocol Conn ConnProofs.
+From WD Require Import Base Wire Protocol Conn ConnProofs HistorySpecA HistorySpecB.
 Open Scope Z_scope.
 
 (* never alive again, on all histories *)
@@ -65,3 +65,45 @@ Example C03_ex :
   option_map (fun o => (o_alive o, o_create o, o_destroy o)) (lookup_obj (fst r) 3 0) = Some (false, 1000, Some 251000) /\
   option_map o_alive (lookup_obj (fst r) 3 1) = Some true.
 Proof. vm_compute. repeat split. Qed.
+
+(* ---- WHOLE HISTORIES against the table-free event trace (Proofs/HistorySpecA-D.v), every history ------------
+   incarnation g of id is alive iff it is the (g+1)-th creation of id in the trace and nothing about id
+   (no delete_id, no further creation) follows it *)
+Theorem C03_alive_interval : forall P h id g,
+  (exists o, lookup_obj (fst (conn_run P db_init h)) id g = Some o /\ o_alive o = true) <->
+  (exists tr1 ty tr2, trace P h = tr1 ++ ECre id ty :: tr2 /\
+                      ncre tr1 id = N.to_nat g /\ quiet id tr2 = true).
+Proof. exact alive_interval. Qed.
+Print Assumptions C03_alive_interval.
+
+(* message by message: alive after k messages iff created by some message k0 < k and every message in
+   between is quiet about id *)
+Theorem C03_alive_interval_msgs : forall P h k id g, id <> 1%Z ->
+  (exists o, lookup_obj (fst (conn_run P db_init (firstn k h))) id g = Some o /\ o_alive o = true) <->
+  (exists k0, (k0 < k)%nat /\
+              (ncre (trace_at P h k0) id <= N.to_nat g)%nat /\
+              ncre (trace_at P h (S k0)) id = S (N.to_nat g) /\
+              forall k1, (k0 < k1 < k)%nat -> quiet id (msg_evs P h k1) = true).
+Proof. exact alive_interval_msgs. Qed.
+Print Assumptions C03_alive_interval_msgs.
+
+(* for client-range ids a life never ends by re-creation: between two creations there is a delete_id *)
+Theorem C03_client_gap : forall P h tr1 id ty tr2 ty' tr3,
+  trace P h = tr1 ++ ECre id ty :: tr2 ++ ECre id ty' :: tr3 ->
+  owned_by_server id = false -> In (EDel id) tr2.
+Proof. exact client_gap. Qed.
+Print Assumptions C03_client_gap.
+
+(* the destroyed annotation: present exactly on the display's delete_id(v) of an id that was created, and
+   it names the latest incarnation of v *)
+Theorem C03_annotation_exact : forall P h k t m rm,
+  nth_error h k = Some (t, m) ->
+  nth_error (snd (conn_run P db_init h)) k = Some rm ->
+  let tr := trace P (firstn k h) in
+  m_destroyed rm =
+  match delete_subject m with
+  | Some v => if (ncre tr v =? 0)%nat then None else Some (Resolved v (N.of_nat (ncre tr v - 1)))
+  | None => None
+  end.
+Proof. exact annotation_exact. Qed.
+Print Assumptions C03_annotation_exact.
